@@ -227,7 +227,7 @@ fn gen(g: &mut G, thorough: bool) -> Plan {
                 _ => {
                     // gzip of zeros: tiny on the wire, huge when inflated; the caller reads it with a fixed buffer
                     use std::io::Write;
-                    let inflated: usize = if thorough { 256 << 20 } else { 48 << 20 };
+                    let inflated: usize = if thorough { 96 << 20 } else { 32 << 20 };
                     let mut enc = flate2::write::GzEncoder::new(Vec::new(), flate2::Compression::best());
                     let zeros = vec![0u8; 1 << 20];
                     for _ in 0..(inflated >> 20) {
